@@ -776,3 +776,159 @@ func TestC16Leader(t *testing.T) {
 		kit.Record("C16", "leader|"+string(kit.MustJSON(kase)), len(kase.Leaders) > 2, func() interface{} { return kase }, "leader-only", fmt.Sprintf("leader:servers:%d", n))
 	})
 }
+
+type c16InconsistentCase struct {
+	Monitors []monSpec `json:"monitors"`
+	Steps    []string  `json:"steps"`
+}
+
+// insertOnlyNotification reports an update/update2/update3 notification that carries
+// nothing but inserted rows: received twice it cannot be applied (the rows exist), which
+// the client must notice and answer by reconnecting and rebuilding its cache.
+func insertOnlyNotification(raw json.RawMessage) bool {
+	var msg struct {
+		Method string            `json:"method"`
+		Params []json.RawMessage `json:"params"`
+	}
+	if json.Unmarshal(raw, &msg) != nil || len(msg.Params) == 0 {
+		return false
+	}
+	if msg.Method != "update" && msg.Method != "update2" && msg.Method != "update3" {
+		return false
+	}
+	var tables map[string]map[string]map[string]json.RawMessage
+	if json.Unmarshal(msg.Params[len(msg.Params)-1], &tables) != nil || len(tables) == 0 {
+		return false
+	}
+	for _, rows := range tables {
+		for _, ru := range rows {
+			for k := range ru {
+				if (msg.Method == "update" && k != "new") || (msg.Method != "update" && k != "insert") {
+					return false
+				}
+			}
+		}
+	}
+	return true
+}
+
+// TestC16Inconsistent: the client receives notifications it cannot apply (an insert-only
+// notification delivered 2-4 times in a row by the proxy). It has to drop the connection,
+// reconnect, re-establish its monitors, and its cache must converge to the database.
+func TestC16Inconsistent(t *testing.T) {
+	w := c16World(t)
+	rapid.Check(t, func(t *rapid.T) {
+		sc := genC16Scenario(t)
+		kase := c16InconsistentCase{Monitors: sc.Monitors}
+		fail := func(class, format string, args ...interface{}) {
+			kit.Fail(t, "C16", class, kase, format, args...)
+		}
+		srv, err := kit.StartServer(w)
+		if err != nil {
+			t.Fatalf("server: %v", err)
+		}
+		defer srv.Close()
+		px, err := kit.StartProxy(srv.Sock)
+		if err != nil {
+			t.Fatalf("proxy: %v", err)
+		}
+		defer px.Close()
+		bg := context.Background()
+		direct, err := kit.NewClient(w, srv.Endpoint())
+		if err != nil {
+			t.Fatalf("client: %v", err)
+		}
+		if err := direct.Connect(bg); err != nil {
+			t.Fatalf("connect: %v", err)
+		}
+		defer direct.Close()
+		c, err := kit.NewClient(w, px.Endpoint(), client.WithReconnect(2*time.Second, backoff.NewConstantBackOff(3*time.Millisecond)))
+		if err != nil {
+			t.Fatalf("client: %v", err)
+		}
+		if err := c.Connect(bg); err != nil {
+			t.Fatalf("connect: %v", err)
+		}
+		defer c.Close()
+		for _, ms := range sc.Monitors {
+			ctx, cancel := context.WithTimeout(bg, 20*time.Second)
+			_, err := c.Monitor(ctx, buildMonitor(w, c, ms))
+			cancel()
+			if err != nil {
+				fail("monitor.error", "Monitor: %v", err)
+			}
+		}
+		var copies int32
+		var tampered int32
+		px.SetTamper(func(dir int, raw json.RawMessage) []json.RawMessage {
+			n := atomic.LoadInt32(&copies)
+			if dir != kit.S2C || n == 0 || !insertOnlyNotification(raw) {
+				return nil
+			}
+			atomic.AddInt32(&tampered, 1)
+			out := []json.RawMessage{raw}
+			for i := int32(0); i < n; i++ {
+				out = append(out, raw)
+			}
+			return out
+		})
+		fresh := 0
+		insert := func() {
+			fresh++
+			ctx, cancel := context.WithTimeout(bg, 20*time.Second)
+			defer cancel()
+			_, err := kit.TransactOps(ctx, w, direct, []kit.Op{
+				{Op: "insert", Table: "T0", Row: kit.Row{"marker": kit.Scalar(kit.Str(fmt.Sprintf("f%d", fresh))), "tags": kit.SetOf(kit.Str("a"))}},
+				{Op: "insert", Table: "T1", Row: kit.Row{"name": kit.Scalar(kit.Str(fmt.Sprintf("n%d", fresh)))}},
+				{Op: "insert", Table: "T2", Row: kit.Row{"v": kit.Scalar(kit.Real(float64(fresh)))}}})
+			if err != nil {
+				fail("harness.direct", "foreign transaction failed: %v", err)
+			}
+		}
+		for i, n := 0, rapid.IntRange(1, 4).Draw(t, "nsteps"); i < n; i++ {
+			k := rapid.SampledFrom([]int{0, 1, 1, 2, 3}).Draw(t, "extracopies")
+			atomic.StoreInt32(&copies, int32(k))
+			kase.Steps = append(kase.Steps, fmt.Sprintf("insert rows, notification delivered %d times", k+1))
+			insert()
+			atomic.StoreInt32(&copies, 0)
+			if rapid.Bool().Draw(t, "plainbetween") {
+				kase.Steps = append(kase.Steps, "insert rows")
+				insert()
+			}
+		}
+		// convergence (barriers by the direct client; the notifications are no longer tampered with)
+		deadline := time.Now().Add(20 * time.Second)
+		var diffs []string
+		for {
+			diffs = nil
+			ctx, cancel := context.WithTimeout(bg, 20*time.Second)
+			_, err := kit.TransactOps(ctx, w, direct, []kit.Op{{Op: "insert", Table: "T2", Row: kit.Row{"v": kit.Scalar(kit.Real(-1))}}})
+			cancel()
+			if err != nil {
+				fail("harness.direct", "barrier: %v", err)
+			}
+			db, err := srv.Snapshot()
+			if err != nil {
+				t.Fatalf("snapshot: %v", err)
+			}
+			if c.Connected() && c.Cache() != nil {
+				for i, ms := range sc.Monitors {
+					for _, d := range compareMonitor(w, c, db, ms) {
+						diffs = append(diffs, fmt.Sprintf("monitor %d (%s): %s", i, ms.Method, d))
+					}
+				}
+			} else {
+				diffs = []string{"client not connected"}
+			}
+			if len(diffs) == 0 || time.Now().After(deadline) {
+				break
+			}
+			time.Sleep(10 * time.Millisecond)
+		}
+		if len(diffs) > 0 {
+			fail("resync.cache-differs", "20 s after receiving notifications it could not apply (%d tampered) the client has not resynchronised:\n%s", atomic.LoadInt32(&tampered), strings.Join(diffs, "\n"))
+		}
+		kit.Record("C16", "inconsistent|"+string(kit.MustJSON(kase)), atomic.LoadInt32(&tampered) > 0, func() interface{} { return kase },
+			"inconsistent-notifications", fmt.Sprintf("inconsistent:tampered:%d", atomic.LoadInt32(&tampered)))
+	})
+}
